@@ -829,7 +829,14 @@ def rule_narrowing(ctx):
     ctx.floor("R10", "narrowing integer conversions in the TCP crate", n, 10)
 
 
+def rule_twins(ctx):
+    """the IPv4 and IPv6 copies of the per-packet functions route sides, roles and lookups identically (shared rule TW)"""
+    from . import _twins as TW
+    TW.twin_agreement(ctx, ctx.program, "TW", ("huginn_net_tcp",), floor=4)
+
+
 def run(ctx):
+    rule_twins(ctx)
     rule_narrowing(ctx)
     rule_R8(ctx)
     rule_mtu_label(ctx)
